@@ -11,6 +11,32 @@ NOTE = ("Trusted base: Lean 4.33 kernel (+ leanchecker re-check in the thorough 
         "string/Duration/BTreeSet/StableVec semantics, derive_builder/strum/derive_more/shorthand generated code, derived PartialEq/Ord/Hash. ")
 
 CLAIMS = {
+    "C05": {
+        "technique": "Lean 4 proof that no text entry point of the model can return `panic` (every string, every builder configuration) + malformed-stream differential run gated on panicked-or-not + measured growth of running time",
+        "text": ("Proof (Lean 4) on the model, which has an explicit `panic` result at every place where the Rust code can unwind: parseMedia_never_panics "
+                 "(for EVERY builder configuration and EVERY string: TryFrom, FromStr, MediaPlaylistBuilder::parse), parseMaster_never_panics, types_never_panic / "
+                 "tags_never_panic (every public tag and attribute type parser), show_never_panics (to_string() of ANY media playlist value never reaches the "
+                 "writer's unreachable!), buildLoop_np / build_np together with items_byteRange (everything the classifier produces fits 64 bits, so "
+                 "ByteRange::set_start inside build cannot fire). Termination: every model function is accepted by Lean's termination checker. Tie: mutants "
+                 "of valid playlists/tags/values with boundary tokens, truncations, duplicated lines, multi-byte splices, and random texts, through every entry "
+                 "point incl. to_string and re-parse; model and library are compared only on 'unwound or returned'; the oracle is 'the library never unwinds, "
+                 "aborts or hangs'. PARTIAL: running time (linear / at most quadratic) is not expressible in the model; it is measured on the real library at "
+                 "1x/2x/4x input sizes for four input families and reported in coverage.timing (ratio limits 10 resp. 40)."),
+        "design_ref": "DESIGN.md §7 C05",
+        "note": "Harness built with overflow-checks and debug-assertions so that arithmetic overflow unwinds. Time bounds are measured, not proved.",
+    },
+    "C11": {
+        "technique": "Lean 4 proof that the key listing is a canonical form of the RFC-level state + repeated/threaded/multi-process execution of the real parser + static scan for hash-order dependence",
+        "text": ("In the model every function is deterministic, so the content of the proof is why a model without hidden inputs is faithful: listing_canonical "
+                 "(two sorted duplicate-free listings of the same key state are equal), insert_comm, same_state_same_listing (two line histories reaching the same "
+                 "RFC-level key state report the same key list), segment_keys_sorted (for every accepted text each segment's keys are strictly sorted in the "
+                 "derived order), parse_is_a_function. PARTIAL by nature: threads, processes and hash seeds are runtime facts no model can exhibit; they are "
+                 "executed: every text is parsed and re-serialised k times in one process, on 4 extra threads and in m fresh processes, and all full responses "
+                 "(value, text, version, keys(), round trip) must be byte-identical and equal to the model's answer. Static tie: a scan of the parser modules "
+                 "flags any HashSet/HashMap whose iteration can reach an output."),
+        "design_ref": "DESIGN.md §7 C11",
+        "note": "Schedules and hash seeds are sampled (k=5/50 repetitions, 4 threads, m=4/64 processes), not enumerated.",
+    },
     "C09": {
         "technique": "Lean 4 proof (validator = exactly the three rules; integer rounding spec; soundness and completeness over line histories) + boundary differential run through text and builder",
         "text": ("Proof (Lean 4) on the model: roundedSecs_spec (rounding to the nearest second with halves up, in integer nanoseconds, for every duration), "
